@@ -478,6 +478,12 @@ compute_image_info (pixman_image_t *image)
 
 	if (PIXMAN_FORMAT_IS_WIDE (image->bits.format))
 	    flags &= ~FAST_PATH_NARROW_FORMAT;
+
+	/* Dithering happens when the wide pipeline writes a scanline back;
+	 * nothing that assumes a narrow destination may be used.
+	 */
+	if (image->bits.dither != PIXMAN_DITHER_NONE)
+	    flags &= ~FAST_PATH_NARROW_FORMAT;
 	break;
 
     case RADIAL:
